@@ -135,14 +135,18 @@ def find_nearest_index_satisfying_monotonic_condition(arr: List[TrajectoryData],
     if pos == 0:
         return 0
     if pos == len(arr):
-        return len(arr) - 1
-    before = pos - 1
-    after = pos
-    if abs(value_getter(arr[before]) - target_value) <= abs(
-        value_getter(arr[after]) - target_value
-    ):
-        return before
-    return after
+        nearest = len(arr) - 1
+    else:
+        before = pos - 1
+        after = pos
+        if abs(value_getter(arr[before]) - target_value) <= abs(
+            value_getter(arr[after]) - target_value
+        ):
+            nearest = before
+        else:
+            nearest = after
+    # several rows can share the nearest value: the smaller index is returned
+    return bisect.bisect_left(BisectWrapper(arr, value_getter), value_getter(arr[nearest]), 0, nearest)
 
 
 def find_index_of_point_for_distance(
